@@ -1,49 +1,61 @@
 """Fail-closed statement translator  Python function body -> typed Gallina  (shared by tools/tables/t_src_*.py).
 
-The translation is TYPED, not dynamic: every Python variable gets one of the types below from the function's
-declared signature (class Fn) and from the expressions assigned to it; an expression whose type the translator
-cannot determine, or any construct outside the vocabulary, aborts with TableError (the check then reports a
-translator abort).  The meaning of every emitted primitive is defined in coq/Common/PyOps2.v.
+The translation is TYPED: every Python variable gets one of the types below from the function's declared signature (class Fn)
+and from the expressions assigned to it; an expression whose type the translator cannot determine, or any construct outside
+the vocabulary, aborts with TableError (the check then reports a translator abort).  The meaning of every emitted primitive is
+defined in coq/Common/PyOps2.v (typed values) and coq/Common/PyOps2Dyn.v (values of type `dyn`).
 
-TYPES     nat     a Python int that is a size / period / index: DOMAIN non-negative (negative values cannot be
-                  represented; a difference that would be negative is `Err ECrash`)
-          bool    True / False            str   a str (list of code points)          V  (any name listed in Fn.tparams)
-          list T  a list OR tuple of T    option T   a value that may be None         A * B   a 2-tuple
-          regex   a compiled pattern, represented by its search predicate  str -> bool
+TYPES     nat     a Python int that is a size / period / list position: DOMAIN non-negative (a difference that would be negative is
+                  `Err ECrash`)                      int   a Python int of either sign (Z), e.g. a voxel index
+          bool    True / False      str  a str (code points)      Q  a number taken exactly      V  (any name in Fn.tparams) a value
+          list T  a list OR tuple   set T   option T (may be None)   A * B  a 2-tuple   dict K T  (association list)
+          regex   a compiled pattern = its search predicate  str -> bool          opaque / unit / msg   values never inspected
+          ndarray an array = its shape (list nat)
+          dyn     a runtime value of unknown type read from JSON content (Coq `jv`); operations on it are DYNAMIC (dyn_* primitives,
+                  conventions in PyOps2Dyn.v: numbers are ints and bools, a float in a numeric position is outside the domain)
           truth   only the truthiness of a value is known (result of and/or over non-bools, of <regex>.search(s));
                   it can be tested, negated or returned from a function declared to return `truth`, never stored.
 
-FUNCTIONS positional parameters only (names and order must match the declaration in Fn; a default must be None on
-          an option-typed parameter).  `self`: attribute reads `self.<a>` (declared in Fn.self_attrs) become explicit
-          parameters `self_<a>`; `self.<m>(args)` calls the translation of method <m> (which must have been
-          translated before) with the self-parameters it needs.  An inner function is translated with the variables
-          it closes over as explicit parameters (Fn.closure).  A function that ends with `def inner..; return inner`
-          (Fn.returns_inner) is translated APPLIED to the parameters of the closure it returns.  External code is a
-          function parameter (Fn.externals, e.g. re.compile -> re_compile).  The result type is `res <declared type>`.
+FUNCTIONS positional parameters only (names and order must match the declaration in Fn; a default must be None on an option- or
+          value-typed parameter).  `self`: attribute reads `self.<a>` (Fn.self_attrs) become explicit parameters `self_<a>`;
+          `self.<m>(args)` / `self.<property>` call the translation of that method / property getter (translated before) with the
+          parameters it needs.  EXTERNAL READS (Fn.templates): an expression that matches a declared source pattern with holes
+          (`self.nii_img.affine[_0, :3]`, `_0.get_dim_info()[2]`, `np.allclose(_0, _1, atol=<literal>)`, `np.array(_0)`, ...) becomes a
+          parameter applied to its holes (monadic when it can raise) or a fixed Coq term.  External functions called by dotted name
+          (Fn.externals, e.g. re.compile).  An inner function is translated with the variables it closes over as parameters
+          (Fn.closure); a function ending with `def inner..; return inner` (Fn.returns_inner) is translated APPLIED to the parameters of
+          the closure.  `values[i]` on a value of type V is the parameter Fn.vops[V]['index'].  The result type is `res <declared type>`
+          (a function may fall off its end only if that is None-able: truth / option / unit).
 
 STATEMENTS  x = e | x = None (x IS None until assigned again) | a, b = e (e a 2-tuple)
-          x += e, x -= e, x *= e, x //= e, x %= e   (x an int)
-          if/elif/else    (a test `x is None` / `x is not None` / `x` on an option-typed variable becomes a `match` and the
-                           variable has the inner type where it is not None; what follows the `if` is translated
-                           once per branch that falls through, with the variable types of that branch)
-          for x in <list expr | range(..)>: <block>      -> py_for; the loop-carried state is the tuple of variables
-                           assigned in the body that exist before the loop; variables first assigned in the body are
-                           local to one iteration; `return` inside the body leaves the function; no break/continue/else
-          return e | return        raise <ValueError|IndexError|KeyError|TypeError>(<string literal> [% e | % (e1, .., en)])
-                           (a `%` whose number of conversions differs from the number of arguments is the TypeError
-                            Python raises while building the message; a 2-tuple VALUE counts as two arguments)
-          assert False     -> Err ECrash         pass, docstrings -> nothing
-EXPRESSIONS names | int >= 0, str, None, True, False literals | 2-tuples | self.<attr>
-          ==  !=  (by type: Nat.eqb, str_eqb, veqb, py_list_eqb, py_pair_eqb, py_option_eqb)   <  <=  >  >=  (nat)
-          in / not in (right operand a list)   is None / is not None
-          and / or / not  (short-circuit: operands that can raise are evaluated only when Python evaluates them; on the
-                           right of `x and ...` an option-typed variable x has its inner type)
-          +  (nat, list, str)   *  (nat)   -  //  %  (nat; monadic: ECrash on a negative result / zero divisor)
-          len(e)   int(e) (e a nat)   min(a, b)   max(a, b)   range(b) | range(a, b)
-          e[i]  (i a literal int, possibly negative, or a nat expression; IndexError -> Err EIndex)
-          e[a:b]  (bounds omitted, literal ints possibly negative, or nat expressions; no step)
+          x += e, x -= e, x *= e, x //= e, x %= e   (x an int or dyn)
+          if/elif/else    tests `x is None` / `x is not None` / `not x is None` / `x` on an option-typed variable become a `match` and
+                          the variable has the inner type where it is not None (also as first operand of `.. is None or ..` /
+                          `.. is not None and ..`).  What follows the `if` is translated once per branch that falls through, with the
+                          variable types of that branch — except when both branches fall through into a long continuation (a loop or
+                          more than 3 statements): then the `if` becomes a region with an explicit outcome and the continuation
+                          is emitted once.
+          for x in <list expr | range(..) | enumerate(..) | iteritems(..)>: <block>   (x a name or a pair of names) -> py_for; the
+                          loop-carried state is the tuple of variables assigned in the body that exist before the loop; variables
+                          first assigned in the body are local to one iteration; `return` inside the body leaves the function;
+                          `continue` ends the iteration; no break, no for/else
+          return e | return      raise <ValueError|IndexError|KeyError|TypeError|InvalidExtensionError>(<str or message expression>)
+          assert False   -> Err ECrash         pass, docstrings -> nothing
+EXPRESSIONS names | int >= 0, str, None, True, False literals | 2-tuples | self.<attr> | '<literal>' % e | '<literal>' % (e1, .., en)
+                          (a message; a wrong number of arguments / `%d` of a non-number is the TypeError Python raises; a 2-tuple VALUE
+                          counts as two arguments)
+          ==  !=  (by type: Nat.eqb, Z.eqb, str_eqb, veqb, jv_eqb, py_list_eqb, py_pair_eqb, py_option_eqb; dyn == int -> dyn_eq_int;
+                   a list compared with a tuple display element-wise)      <  <=  >  >=  and chains of two (nat, int, dyn -> dyn_int)
+          in / not in (right operand a list or dyn)   is None / is not None (option or dyn)   set <= set   set & set
+          and / or / not  (short-circuit: operands that can raise are evaluated only when Python evaluates them; on the right of
+                           `x and ...` an option-typed variable x has its inner type)
+          +  (nat, int, list, str)   *  (nat, int; with a dyn operand dyn_mul)   -  //  %  (nat: monadic, ECrash on a negative result / zero
+          divisor; int: + - * only)
+          len(e)   int(e) (e a nat)   min / max   range(b) | range(a, b)   enumerate(e)   tuple(e) / set(e) (e a list, set or dyn)   iteritems(e)
+          e[i]  (list: i a literal int, possibly negative, a nat / int expression, an option nat (None -> TypeError) or dyn; pair: 0 / 1;
+                 dict: key; dyn: str key; V: Fn.vops)         e[a:b]  (no step)
           all(<cond> for v in <list expr>)   [<expr that cannot raise> for v in <list expr>]   '<literal>'.join(<list of str>)
-          <regex>.search(<str>)   self.<method>(args)   <external>(args)
+          <regex>.search(<str>)   <ndarray>.shape
 Everything that can raise becomes a monadic bind, emitted in Python's evaluation order."""
 import ast, re
 from astlib import TableError, find_func, cstr, cnat, cq, float_lit_exact
